@@ -9,6 +9,11 @@ TB_CODEC = TB_COMMON + [
     "modelled, not verified: encoding/binary Read/Write on *uint8,*uint16,[]uint8,[n]uint8,*struct{} and bytes.Buffer (Codec/Defs.lean decBody/encBody)",
 ]
 
+TB_CONV = [
+    "hand-written Model/Convert.lean mirrors nasConvert/{MobileIdentity5GS,PlmnId,AmfId,Nssai,Snssai,TaiList,ServiceAreaList,Ladn,UESecurityCapability,PSI,UPUInfo}.go and the text getters of nasType/NAS_MobileIdentity5GS.go, NAS_DNN.go (every index/slice is a checked primitive, loops carry fuel whose exhaustion is a panic); tied by the correspondence run",
+    "Prelude/GoLib.lean: encoding/hex, bits.RotateLeft8, strings.Index/Join, fmt %x/%d, strconv.Atoi on one byte modelled, not verified (exercised through every helper by the correspondence run)",
+]
+
 CODEC_MODS = ["NasVerif.Props.Codec"]
 
 PROPS = {
@@ -95,5 +100,13 @@ PROPS = {
                                         "Go's time package (time.Date normalisation, FixedZone) is trusted: the theorem is about the BCD/semi-octet transport of the six fields and the zone octet",
                                         "spec decoders (TS 24.008 Tables 10.5.163/163a, TS 23.040 time zone, TS 23.038 7-bit packing) are transcriptions"],
         rule="all timer-2 durations 0..11200 s, timer-3 durations 0..1116100 s in steps of 7 (thorough: all) plus every k*unit +-1; AMBR boundary values x units + 3000 random (thorough: all 65536); all 480 zone x DST texts; all 256 zone/DST octets; universal time at year/month/leap boundaries + random instants x zones; names of every length 0..70 x 3 fillings x 2 kinds; non-trivial = distinct op",
+    ),
+    "C14": dict(
+        level="proof", modules=["NasVerif.Props.C14"], parts=[],
+        streams=[("conv14", 300, 3000)], oracle="C14",
+        trusted_base=TB_COMMON[:1] + TB_CONV,
+        rule="per helper (9 raw-contents helpers, RequestedNssaiToModels on decoded IEs, 15 MobileIdentity5GS getters): all contents of length 0..1, length 2 stratified (thorough: all 65 536), random length 3, every identity type x SUPI format x length 1..20 x 3 fillings, valid SUCI/GUTI/PEI/S-TMSI/NSSAI/LADN/DNN/UPU values with every truncation and mutations, every length octet 0..255 at list heads; text variants (GUTI, AMF id): every length 0..24 and every position replaced by non-digit/non-hex/non-ASCII bytes; all 256 time-zone/DST octets; non-trivial = distinct op the implementation answers with a value",
+        assumptions=["RequestedNssaiToModels is evaluated on IE values with Len = len(Buffer) (what the message decoder produces: C03 decode_wf); a hand-built IE with Len > len(Buffer) panics in Go and in the model alike and is outside the property",
+                     "a Go call that does not return within 5 s is reported as hang"],
     ),
 }
